@@ -303,6 +303,8 @@ def _exec(op, kv):
         return _cluster(kv)
     if op == "CALL":
         return _call(kv)
+    if op == "CALLS":
+        return _calls_loop(kv)
     if op == "INDELFILE":
         return _indelfile(kv)
     return "bad-op"
@@ -529,3 +531,32 @@ def _call(kv):
     c = calls[0] + [1]
     assert (c[0] == "insertion") == (calls[0] in ind["insertion"])
     return _show_call(c)
+
+
+def _calls_loop(kv):
+    """the two real `look_for_indels_in_breakage` loops on one alignment with several pairs: positions[siteId - 1]
+    look-ups, the `len(alignedPairs) > index + 1` guard (segment finder), several breakage places"""
+    from src.diagnostic.benchmark_alignment import BenchmarkAlignedPair
+    chrom, qid = int(kv["chrom"]), int(kv["qid"])
+
+    class M:
+        pass
+    rm, qm = M(), M()
+    rm.positions, qm.positions = ints(kv.get("R", "")), ints(kv.get("Q", ""))
+
+    class Al:
+        pass
+    al = Al()
+    al.queryId, al.referenceId = qid, chrom
+    al.alignedPairs = [BenchmarkAlignedPair.create(str(r), str(q)) for r, q in bpairs(kv.get("PAIRS", ""))]
+    if kv["variant"] == "seg":
+        import segment_indels as si
+        bp = [[i, None] for i in ints(kv.get("BP", ""))]
+        ind = si.look_for_indels_in_breakage({chrom: [al]}, {chrom: rm}, {qid: qm}, {qid: bp})
+        # the finder appends to two lists: canonical order = insertions as found, then deletions as found
+        return ";".join(_show_call(c + [1]) for c in list(ind["insertion"]) + list(ind["deletion"]))
+    import molecule_indels as mi
+    r, q = bpairs(kv["BPAIR"])[0]
+    ind = mi.look_for_indels_in_breakage({chrom: [al]}, {chrom: rm}, {qid: qm},
+                                         {qid: [int(kv["BP"]), BenchmarkAlignedPair.create(str(r), str(q))]})
+    return ";".join(_show_call(c + [1]) for c in ind["insertion"] + ind["deletion"])
